@@ -34,7 +34,7 @@ func slot(l *[]assoc, key interface{}) *assoc {
 //
 //go:norace
 func CondWait(c *sync.Cond, site string) {
-	t := cur
+	t := me()
 	if t == nil {
 		c.Wait()
 		return
@@ -67,7 +67,7 @@ func CondWait(c *sync.Cond, site string) {
 //
 //go:norace
 func CondSignal(c *sync.Cond, site string) {
-	t := cur
+	t := me()
 	if t == nil {
 		c.Signal()
 		return
@@ -86,7 +86,7 @@ func CondSignal(c *sync.Cond, site string) {
 //
 //go:norace
 func CondBroadcast(c *sync.Cond, site string) {
-	t := cur
+	t := me()
 	if t == nil {
 		c.Broadcast()
 		return
@@ -106,7 +106,7 @@ func CondBroadcast(c *sync.Cond, site string) {
 //
 //go:norace
 func OnceDo(o *sync.Once, f func(), site string) {
-	t := cur
+	t := me()
 	if t == nil || t.abort {
 		o.Do(f)
 		return
@@ -141,15 +141,23 @@ func OnceDo(o *sync.Once, f func(), site string) {
 
 //go:norace
 func WGAdd(wg *sync.WaitGroup, n int, site string) {
-	wg.Add(n)
-	t := cur
-	// counted also when the controller calls it before Run (state is reset
-	// when a run ends, not when it starts)
-	w := slot(&wgL, wg)
-	w.n += n
+	t := me() // identity first: the real Add may release a waiter that starts the next run at once
 	if t == nil {
+		if active == nil {
+			// outside any run (the controller preparing a run, or a goroutine the code under test started
+			// there): the shadow count is kept, so that a run that starts afterwards knows the counter
+			outsideMu.Lock()
+			if active == nil {
+				slot(&wgL, wg).n += n
+			}
+			outsideMu.Unlock()
+		}
+		wg.Add(n)
 		return
 	}
+	w := slot(&wgL, wg)
+	w.n += n
+	wg.Add(n)
 	if w.n <= 0 {
 		unblock(wg)
 	}
@@ -164,7 +172,7 @@ func WGDone(wg *sync.WaitGroup, site string) { WGAdd(wg, -1, site) }
 
 //go:norace
 func WGWait(wg *sync.WaitGroup, site string) {
-	t := cur
+	t := me()
 	if t == nil {
 		wg.Wait()
 		return
